@@ -108,7 +108,8 @@ def gen_config(rng):
     cfg["warm"] = rng.random() < 0.5
     cfg["p_local"] = rng.choice([0.2, 0.5, 0.8])
     cfg["p_bad"] = rng.choice([0.0, 0.1, 0.25])
-    cfg["p_inst"] = rng.choice([0.0, 0.15])
+    cfg["p_inst"] = rng.choice([0.0, 0.15, 0.4])
+    cfg["p_cur"] = rng.choice([0.0, 0.1, 0.25])  # select "whatever current_backend() returns" (an instance)
     cfg["p_raise"] = rng.choice([0.0, 0.15, 0.3])
     cfg["max_ops"] = rng.choice([2, 3, 4, 6])
     cfg["w_with"] = rng.choice([1, 3, 5])
@@ -125,6 +126,8 @@ def gen_config(rng):
 def _pick_backend(rng, cfg, mgr):
     if rng.random() < cfg["p_bad"]:
         return rng.choice(BE_BAD if mgr == "be" else TA_BAD)
+    if rng.random() < cfg.get("p_cur", 0.0):
+        return "@cur"
     if mgr == "be":
         if rng.random() < cfg["p_inst"]:
             return rng.choice(BE_INST)
@@ -306,11 +309,30 @@ class Run:
             else:
                 raise HarnessError("bad op " + k)
 
+    def tag_of(self, mgr, inst):
+        if mgr == "be":
+            for k, v in self.insts.items():
+                if v is inst:
+                    return k
+            return getattr(inst, "tag", None) or inst.backend_name
+        return inst.backend_name
+
+    def resolve_cur(self, t, mgr):
+        """`current_backend()` as an observation of its own, then used as an instance argument."""
+        h = self.invoke(t, "cur", mgr=mgr)
+        inst = (self.E["BM"] if mgr == "be" else self.E["TM"]).current_backend()
+        tag = self.tag_of(mgr, inst)
+        self.ret(h, tag)
+        return tag, inst
+
     def do_set(self, t, op):
         mgr, b = op["mgr"], op["b"]
+        arg = None
+        if b == "@cur":
+            b, arg = self.resolve_cur(t, mgr)
         h = self.invoke(t, "set", mgr=mgr, b=b, local=op["local"])
         try:
-            self.mgr_mod(mgr).set_backend(self.backend_arg(mgr, b), local_threadsafe=op["local"])
+            self.mgr_mod(mgr).set_backend(arg if arg is not None else self.backend_arg(mgr, b), local_threadsafe=op["local"])
         except Exception as e:
             if not self.is_bad(mgr, b):
                 self.violate(f"{mgr}.select-valid-raised", f"set_backend({b!r}) raised {type(e).__name__}: {e}")
@@ -323,12 +345,15 @@ class Run:
     def do_with(self, t, op, depth):
         mgr, b = op["mgr"], op["b"]
         mod = self.mgr_mod(mgr)
+        arg = None
+        if b == "@cur":
+            b, arg = self.resolve_cur(t, mgr)
         h_enter = self.invoke(t, "enter", mgr=mgr, b=b, local=op["local"])
         entered = False
         unwind = None
         h_exit = None
         try:
-            with mod.backend_context(self.backend_arg(mgr, b), local_threadsafe=op["local"]):
+            with mod.backend_context(arg if arg is not None else self.backend_arg(mgr, b), local_threadsafe=op["local"]):
                 entered = True
                 if self.is_bad(mgr, b):
                     self.violate(f"{mgr}.unknown-accepted", f"backend_context({b!r}) entered")
@@ -414,7 +439,7 @@ def judge(run):
             h["t"] == f["t"] and h["op"] in ("set", "enter") and h["out"] == "ok" and h["inv"] < f["inv"] for h in hist
         )
         role = "own" if selected_before else "observer"
-        if f["op"] in ("get", "probe", "attr"):
+        if f["op"] in ("get", "probe", "attr", "cur"):
             oracle = f"{mgr}.{role}-{f['op']}-wrong"
             text = (
                 f"thread {f['t']} ({'has selected before' if selected_before else 'never selected'}) "
